@@ -21,9 +21,10 @@ for n in names:
         try:
             c = subprocess.run([os.path.join(ROOT, 'check'), pid], capture_output=True, text=True, env=env, timeout=3000)
             lines = [l for l in c.stdout.splitlines() if l.startswith(('VIOLATION', 'KNOWN-FINDING', 'OK '))]
-            res = {'check': pid, 'applies': True, 'rc': c.returncode, 'caught': c.returncode == 1 and any(l.startswith('VIOLATION') for l in lines),
+            builds = not any('harness-build' in l for l in lines)   # a seed that no longer compiles is not a seed
+            res = {'check': pid, 'applies': True, 'compiles': builds, 'rc': c.returncode, 'caught': builds and c.returncode == 1 and any(l.startswith('VIOLATION') for l in lines),
                    'lines': [l[:300] for l in lines], 'wall_s': round(time.time() - t0, 1), 'repo_head': subprocess.run(['git', '-C', '/repo', 'rev-parse', '--short', 'HEAD'], capture_output=True, text=True).stdout.strip()}
         finally:
             subprocess.run(['git', '-C', '/repo', 'checkout', '--', '.'])
     json.dump(res, open(os.path.join(d, 'detect.json'), 'w'), indent=1)
-    print(n, json.dumps({k: res[k] for k in res if k in ('applies', 'rc', 'caught', 'error', 'wall_s')}), flush=True)
+    print(n, json.dumps({k: res[k] for k in res if k in ('applies', 'compiles', 'rc', 'caught', 'error', 'wall_s')}), flush=True)
